@@ -34,6 +34,11 @@ class ToolError(Exception):
     pass
 
 
+class Hang(Exception):
+    """A call into allsorts did not return within the harness' watchdog limit (exit status 3 + hang file)."""
+    pass
+
+
 class Ctx:
     def __init__(self, prop, tier, seed):
         self.prop = prop
@@ -80,7 +85,7 @@ def build_harness(bin_name, features=None, target_suffix=""):
     return os.path.join(tdir, "release", bin_name)
 
 
-def run_harness(binpath, args, timeout=1800, env_extra=None, stdin=None):
+def run_harness(binpath, args, timeout=1800, env_extra=None, stdin=None, hang_path=None):
     env = dict(os.environ)
     env["VERIF_REPO"] = REPO
     if env_extra:
@@ -90,6 +95,9 @@ def run_harness(binpath, args, timeout=1800, env_extra=None, stdin=None):
                            stderr=subprocess.PIPE, text=True, timeout=timeout, input=stdin)
     except subprocess.TimeoutExpired:
         raise ToolError("harness %s %s timed out after %ss" % (os.path.basename(binpath), args[:2], timeout))
+    if p.returncode == 3 and hang_path and os.path.exists(hang_path):
+        # vh::sup::Watchdog: a call into allsorts did not return; the description of the call is in the file
+        raise Hang(open(hang_path).read().strip())
     if p.returncode != 0:
         raise ToolError("harness %s %s exited %s:\n%s" % (os.path.basename(binpath), args[:2], p.returncode,
                                                         (p.stdout + p.stderr)[-3000:]))
